@@ -1050,7 +1050,7 @@ fn run_history(rep: &mut Report, rng: Rng, hist_no: u64, ops: usize, light: bool
     ctr: 0,
     label_base: (args.shard + 1) * 1_000_000_000_000 + hist_no * 10_000_000_000,
     max_keys: if tiny { 3 } else if light { 4 } else { 12 },
-    max_cross: if tiny { 1 } else if light { 2 } else { 64 },
+    max_cross: if tiny { 0 } else if light { 2 } else { 64 },
     tiny,
     seed_info: json!({"seed":args.seed,"shard":args.shard,"nshards":args.nshards,"thorough":args.thorough,"history":hist_no}),
   };
@@ -1426,6 +1426,7 @@ impl<'a> Races<'a> {
     };
     let shared = Arc::new(shared);
     let gate = Arc::new(Gate { arrived: AtomicUsize::new(0), n });
+    let tiny = self.tiny;
     struct Out {
       gen: Option<JwkGenOutput>,
       own_msg: Vec<u8>,
@@ -1470,10 +1471,12 @@ impl<'a> Races<'a> {
               Err(p) => o.panics.push(p),
             }
             if let Some(g) = o.gen.clone() {
-              match call(store.sign(&g.key_id, &o.own_msg, &g.jwk)) {
-                Ok(Ok(sig)) => o.own_sig = Some(sig),
-                Ok(Err(e)) => o.errors.push(format!("sign own: {}", e)),
-                Err(p) => o.panics.push(p),
+              if !tiny {
+                match call(store.sign(&g.key_id, &o.own_msg, &g.jwk)) {
+                  Ok(Ok(sig)) => o.own_sig = Some(sig),
+                  Ok(Err(e)) => o.errors.push(format!("sign own: {}", e)),
+                  Err(p) => o.panics.push(p),
+                }
               }
               match call(store.exists(&g.key_id)) {
                 Ok(Ok(b)) => o.exists_before = Some(b),
@@ -1522,7 +1525,7 @@ impl<'a> Races<'a> {
       ctr: 0,
       label_base: 0,
       max_keys: 0,
-      max_cross: if self.tiny { 1 } else { 64 },
+      max_cross: if self.tiny { 0 } else { 64 },
       tiny: self.tiny,
       seed_info: case.clone(),
     };
@@ -1547,7 +1550,9 @@ impl<'a> Races<'a> {
     for (t, o) in outs.iter().enumerate() {
       if let Some(sig) = &o.shared_sig {
         h.rep.inc("race_shared_sign_ok");
-        h.judge_signature(0, &o.shared_msg, sig, "shared key in a racing round");
+        if !tiny || t == 0 {
+          h.judge_signature(0, &o.shared_msg, sig, "shared key in a racing round");
+        }
       }
       if let (Some(sig), Some(g)) = (&o.own_sig, &o.gen) {
         if let Some(k) = h.keys.iter().position(|r| r.id == g.key_id.as_str()) {
